@@ -9,6 +9,9 @@ package main
 //	   a kind-1 line can be replayed alone (light scenario: the same records through a fresh agent)
 //	2  one (generation, pipeline, output): observed buffer/client events -> every buffer_* and output_* counter
 //	   (c19_recon.go); z[0..5] = [seed, idx, gen, pipeline number, output number, 0] identify the scenario
+//	3  one script on the real bufferer alone (c19_buffer.go)
+//	4  pooled records (real parser + allocator) through a long-lived pipeline worker: history of parses into
+//	   observed buffers and worker steps -> process_* counters per metric-key tuple (c19_pooled.go); self-contained
 //
 // Oracles (Go side, independent of the Coq model): c19RecordOracle and c19PipeOracle evaluate the balance
 // equations of the property on the events the harness itself produced / observed, against the gathered counters.
@@ -237,6 +240,15 @@ func c19Run(c *Case) (string, []Fail) {
 		}
 		_, out, fails := c19RunBufPlan(c19MakeBufPlan(uint64(c.Z[0]), int(c.Z[1])), [6]int64{c.Z[0], c.Z[1], 0, 0, 0, 0})
 		return out, fails
+	case 4:
+		// self-contained: the records, where their key fields are and the schedule are in the line (the buffer
+		// numbers in it are those observed when the line was made; the run observes its own)
+		p := c19PoolFromLine(c)
+		if p == nil {
+			return "badcase", nil
+		}
+		_, out, fails := c19RunPoolPlan(p)
+		return out, fails
 	case 2:
 		if len(c.Z) < 6 {
 			return "badcase", nil
@@ -355,6 +367,8 @@ func c19Gen(g *Gen) {
 			g.Count("buf-script-with-persistent")
 		}
 	}
+	// ---- (c2) pooled records through a long-lived pipeline worker (kind 4, c19_pooled.go) ----
+	c19GenPooled(g)
 	// ---- (d) generated end-to-end scenarios ----
 	n := g.Pick(45, 600)
 	for i := 0; i < n; i++ {
